@@ -46,12 +46,14 @@ func init() { streams["C17"] = c17Stream }
 // ---------------------------------------------------------------- keys and symbolic cookies
 
 var c17Hash = [][]byte{nil,
-	[]byte("hash-key-1-0123456789abcdef01234"), []byte("hash-key-2-0123456789abcdef01234"), []byte("hash-key-3-0123456789abcdef01234")}
+				[]byte("hash-key-1-0123456789abcdef01234"), []byte("hash-key-2-0123456789abcdef01234"), []byte("hash-key-3-0123456789abcdef01234")}
 var c17Block = [][]byte{nil, // 0 = no encryption
 	[]byte("block-key-1-0123"), []byte("block-key-2-0123456789abcdef0123")}
 var c17Names = []string{"state", "pkce", "other"}
 
-type c17Codecs struct{ sc map[[2]int]*securecookie.SecureCookie }
+type c17Codecs struct {
+	sc map[[2]int]*securecookie.SecureCookie
+}
 
 func newC17Codecs() *c17Codecs {
 	c := &c17Codecs{sc: map[[2]int]*securecookie.SecureCookie{}}
